@@ -13,7 +13,7 @@ func init() {
 	bodies["C04"] = func(rep int) {
 		want, _ := seqhash.Hash(base, "DNA", true, true)
 		var wg sync.WaitGroup
-		bad := make(chan string, 64)
+		bad := make(chan string, 8*10) // room for a wrong hash from every call: senders never block
 		for g := 0; g < 8; g++ {
 			wg.Add(1)
 			go func(g int) {
